@@ -41,6 +41,8 @@ type glueWorld struct {
 	cMax   int64 // largest MAX_DATA given to us
 	cAdv   int64 // last connection limit we advertised
 	connWU bool  // onHasConnectionData was signalled
+	framer      *framer
+	dataBlocked map[int64]int // DATA_BLOCKED frames produced, per limit value
 	nHeld, nReset, nResetAfterHold int
 	curOp  string // class of the op being executed (part of monitor keys)
 }
@@ -81,7 +83,11 @@ type glueSender struct {
 }
 
 func (s *glueSender) onHasConnectionData() { s.g.connWU = true }
-func (s *glueSender) onHasStreamData(id protocol.StreamID, _ *SendStream) {}
+func (s *glueSender) onHasStreamData(id protocol.StreamID, str *SendStream) {
+	if s.g.framer != nil {
+		s.g.framer.AddActiveStream(id, str)
+	}
+}
 func (s *glueSender) onHasStreamControlFrame(id protocol.StreamID, _ streamControlFrameGetter) {
 	for _, r := range s.g.recv {
 		if r.id == id {
@@ -214,6 +220,55 @@ func (g *glueWorld) checkRecv() {
 	}
 	if cs[flowcontrol.VHighestReceived] != sumRecv {
 		g.fail("flowglue/recv/received-sum", fmt.Sprintf("connection highestReceived %d != sum over streams %d", cs[flowcontrol.VHighestReceived], sumRecv))
+	}
+}
+
+func (g *glueWorld) sendIdx(id protocol.StreamID) (int, *glueSend) {
+	for k, y := range g.send {
+		if y.id == id {
+			return k, y
+		}
+	}
+	return -1, nil
+}
+
+func (g *glueWorld) onStreamFrame(f *wire.StreamFrame) {
+	i, x := g.sendIdx(f.StreamID)
+	if x == nil {
+		return
+	}
+	end := int64(f.Offset + f.DataLen())
+	g.log("s%d STREAM[%d,%d)fin=%v", i, f.Offset, end, f.Fin)
+	if end > x.highest {
+		x.buffered -= end - x.highest
+		x.highest = end
+	}
+	x.out = append(x.out, f)
+}
+
+func (g *glueWorld) onStreamDataBlocked(id protocol.StreamID, lim int64) {
+	i, x := g.sendIdx(id)
+	if x == nil {
+		return
+	}
+	g.log("s%d STREAM_DATA_BLOCKED(%d)", i, lim)
+	x.blocked[lim]++
+	if x.blocked[lim] > 1 {
+		g.fail("flowglue/send/blocked-twice", fmt.Sprintf("send stream %d emitted STREAM_DATA_BLOCKED(%d) %d times", i, lim, x.blocked[lim]))
+	}
+	if lim != x.maxSend {
+		g.fail("flowglue/send/blocked-value", fmt.Sprintf("send stream %d emitted STREAM_DATA_BLOCKED(%d) but its limit is %d", i, lim, x.maxSend))
+	}
+}
+
+func (g *glueWorld) onDataBlocked(off int64) {
+	g.log("DATA_BLOCKED(%d)", off)
+	g.dataBlocked[off]++
+	if g.dataBlocked[off] > 1 {
+		g.fail("flowglue/send/data-blocked-twice", fmt.Sprintf("DATA_BLOCKED(%d) was produced %d times for the same connection limit", off, g.dataBlocked[off]))
+	}
+	if off != g.cMax {
+		g.fail("flowglue/send/data-blocked-value", fmt.Sprintf("DATA_BLOCKED(%d) but the connection limit is %d", off, g.cMax))
 	}
 }
 
@@ -357,6 +412,8 @@ func runFlowGlueCase(w *bufio.Writer, rng *u.Rng, caseNo int, dist map[string]in
 		func(protocol.ByteCount) bool { return !r.Chance(1, 6) }, g.rtt, utils.DefaultLogger)
 	g.cMax = []int64{0, 5, 20, 60, 300}[r.Intn(5)]
 	g.conn.UpdateSendWindow(protocol.ByteCount(g.cMax))
+	g.framer = newFramer(g.conn)
+	g.dataBlocked = map[int64]int{}
 	g.log("conn(rw=%d,MAX_DATA=%d,resetAt=%v)", cw, g.cMax, resetAt)
 	sender := &glueSender{g: g}
 	ns, nr := r.Range(0, 2), r.Range(1, 3)
@@ -403,45 +460,53 @@ func runFlowGlueCase(w *bufio.Writer, rng *u.Rng, caseNo int, dist map[string]in
 				g.log("s%d.Write(%d)=>(%d,%v)", i, n, k, err != nil)
 				x.buffered += int64(k)
 				x.written += int64(k)
-			case c < 11: // what the framer does: pop a STREAM frame, then ask the connection controller
+			case c < 11 && r.Chance(2, 5): // the REAL framer packs a packet: STREAM frames of the active streams,
+				// STREAM_DATA_BLOCKED of streams that just became blocked, DATA_BLOCKED if the connection did
+				maxLen := protocol.ByteCount([]int{130, 140, 200, 1200}[r.Intn(4)])
+				frames, sfs, _ := g.framer.Append(nil, nil, maxLen, now, v)
+				g.log("framer.Append(%d)", maxLen)
+				for _, sf := range sfs {
+					g.onStreamFrame(sf.Frame)
+				}
+				for _, f := range frames {
+					switch fr := f.Frame.(type) {
+					case *wire.StreamDataBlockedFrame:
+						g.onStreamDataBlocked(fr.StreamID, int64(fr.MaximumStreamData))
+					case *wire.DataBlockedFrame:
+						g.onDataBlocked(int64(fr.MaximumData))
+					}
+				}
+				for k, y := range g.send {
+					g.checkSend(y, k)
+				}
+			case c < 11: // what the framer does, step by step: pop a STREAM frame, then ask the connection controller
 				maxBytes := protocol.ByteCount([]int{4, 6, 9, 20, 60, 1200}[r.Intn(6)])
 				f, blocked, more := x.str.popStreamFrame(maxBytes, v)
 				if f.Frame != nil {
-					end := int64(f.Frame.Offset + f.Frame.DataLen())
-					g.log("s%d.popStreamFrame(%d)=>STREAM[%d,%d)fin=%v more=%v", i, maxBytes, f.Frame.Offset, end, f.Frame.Fin, more)
-					if end > x.highest {
-						x.buffered -= end - x.highest
-						x.highest = end
-					}
-					x.out = append(x.out, f.Frame)
+					g.onStreamFrame(f.Frame)
 				} else {
 					g.log("s%d.popStreamFrame(%d)=>nil more=%v", i, maxBytes, more)
 				}
 				if blocked != nil {
-					lim := int64(blocked.MaximumStreamData)
-					g.log("s%d STREAM_DATA_BLOCKED(%d)", i, lim)
-					x.blocked[lim]++
-					if x.blocked[lim] > 1 {
-						g.fail("flowglue/send/blocked-twice", fmt.Sprintf("send stream %d emitted STREAM_DATA_BLOCKED(%d) %d times", i, lim, x.blocked[lim]))
-					}
-					if lim != x.maxSend {
-						g.fail("flowglue/send/blocked-value", fmt.Sprintf("send stream %d emitted STREAM_DATA_BLOCKED(%d) but its limit is %d", i, lim, x.maxSend))
-					}
+					g.onStreamDataBlocked(blocked.StreamID, int64(blocked.MaximumStreamData))
 				}
 				if b, off := g.conn.IsNewlyBlocked(); b {
-					g.log("DATA_BLOCKED(%d)", off)
-					if int64(off) != g.cMax {
-						g.fail("flowglue/send/data-blocked-value", fmt.Sprintf("DATA_BLOCKED(%d) but the connection limit is %d", off, g.cMax))
-					}
+					g.onDataBlocked(int64(off))
 				}
 				g.checkSend(x, i)
 			case c < 13: // MAX_STREAM_DATA (possibly reordered / duplicate)
 				lim := max(x.maxSend+int64(r.Range(-5, 30)), 0)
+				if r.Chance(1, 3) {
+					lim = x.maxSend // a duplicate MAX_STREAM_DATA
+				}
 				x.str.updateSendWindow(protocol.ByteCount(lim))
 				x.maxSend = max(x.maxSend, lim)
 				g.log("s%d MAX_STREAM_DATA(%d)", i, lim)
 			case c < 15: // MAX_DATA
 				lim := max(g.cMax+int64(r.Range(-5, 40)), 0)
+				if r.Chance(1, 3) {
+					lim = g.cMax // a duplicate MAX_DATA (or the handshake repeating the remembered 0-RTT limit)
+				}
 				g.conn.UpdateSendWindow(protocol.ByteCount(lim))
 				g.cMax = max(g.cMax, lim)
 				g.log("MAX_DATA(%d)", lim)
